@@ -48,16 +48,16 @@ ASSUMPTIONS = [
 ]
 BOUNDS = {
     "quick": "config r2: <= 2 deviations from {c1,c3,d1,d2,limit} at every reached placement; config r1: "
-    "exactly 2 failure deviations {d1,d2,limit} at every reached placement",
+    "2 failure deviations {d1,d2,limit} at every reached pair of consecutive solves",
     "thorough": "config r2: <= 3 deviations from {c1,c3,d1,d2,limit} at every reached placement; config r1: "
-    "2 or 3 failure deviations {d1,d2,limit} at every reached placement",
+    "2 or 3 failure deviations {d1,d2,limit} at every reached placement that contains two consecutive solves",
 }
 MIN_CLASSES = 6
 CHUNK = 6
 
 K = {"quick": {"r2": 2, "r1": 2}, "thorough": {"r2": 3, "r1": 3}}
 # config r1 differs from r2 only after two consecutive failures: it is explored with failure
-# deviations only, and only scripts with >= 2 of them are executed
+# deviations only, and only scripts with failures at two consecutive solves are executed
 FAIL_ONLY = {"r1"}
 STEP_CAP = 200
 
@@ -79,7 +79,8 @@ def cases(tier):
             dev = stack.pop()
             trace, end = _predict(cfg, dev)
             obs = (name, tuple((r[0], r[1]) for r in trace), end)
-            if name not in FAIL_ONLY or len(dev) >= 2:
+            adjacent = any(b[0] == a[0] + 1 for a, b in zip(dev, dev[1:]))
+            if name not in FAIL_ONLY or adjacent:
                 out.append({"tm": name, "dev": [[p, list(o)] for p, o in dev], "n_solves": len(trace),
                             "first_with_observation": None, "_obs": obs})
             if len(dev) < k:
